@@ -121,6 +121,22 @@ def has(block, kind):
     return False
 
 
+def loop_first_programs(max_items=4, loop_conds=("T", "i0"), conds=("i0", "i1"), awaits=("i1", "true")):
+    """programs whose first action is a while loop, with bodies of 2..max_items items from {if c: break, if c: continue, await, site},
+    optionally followed by one site (the coroutine ends right after the loop otherwise)"""
+    items = [("if", c, (("break",),), ()) for c in conds] + [("if", c, (("continue",),), ()) for c in conds] + \
+            [("await", a) for a in awaits] + [S]
+    for n in range(2, max_items + 1):
+        for body in itertools.product(items, repeat=n):
+            if not any(it[0] == "await" for it in body):
+                continue  # a loop without await never consumes a clock inside the body (covered by the small programs)
+            for lc in loop_conds:
+                for tail in ((), (S,)):
+                    prog = (("while", lc, tuple(body)),) + tail
+                    if count_sites(prog):
+                        yield prog
+
+
 def to_match(block):
     """the same program with every `if` written as a `match` statement"""
     out = []
@@ -185,6 +201,8 @@ class Flat:
 def render(prog, reset=None, entity="T", on_reset=False, c04=False):
     """reset: None | dict(is_async=bool, active_low=bool)"""
     f = Flat(prog)
+    # nopush: the sites use no push assignment at all (a context without pushed signals is lowered differently)
+    nopush = bool(reset and reset.get("nopush"))
     out = ["from cohdl import std, Entity, Port, Bit, Unsigned, Signal, Variable", "import cohdl", ""]
 
     def block(lid, ind, env):
@@ -197,7 +215,7 @@ def render(prog, reset=None, entity="T", on_reset=False, c04=False):
             k = st[0]
             if k == "site":
                 n = f.site_no[(lid, idx)]
-                lines += [pre + f"{env}.o <<= {n}", pre + f"{env}.p{n} ^= True", pre + "v @= v + 1", pre + f"{env}.ov <<= v"]
+                lines += [pre + f"{env}.o <<= {n}"] + ([] if nopush else [pre + f"{env}.p{n} ^= True"]) + [pre + "v @= v + 1", pre + f"{env}.ov <<= v"]
                 if c04:
                     lines += [pre + f"{env}.ond <<= {n}", pre + f"{env}.onr <<= {n}", pre + f"{env}.orst <<= 1",
                               pre + f"{env}.onr2[0] <<= {bool(n & 1)}", pre + f"{env}.onr2[2:1] <<= '{(n >> 1) & 3:02b}'"]
@@ -291,8 +309,9 @@ class RefMachine:
     """State: (mode, stack, o, ov, v) ; stack = tuple of (lid, idx) frames, innermost last.
     step(inputs) advances one clock and returns the output dict."""
 
-    def __init__(self, flat: Flat, c04=False, on_reset=False):
+    def __init__(self, flat: Flat, c04=False, on_reset=False, nopush=False):
         self.f = flat
+        self.nopush = nopush
         self.c04 = c04
         self.on_reset = on_reset
         self.ond = None   # no default: undefined until first assignment, kept by reset
@@ -320,7 +339,7 @@ class RefMachine:
         if self.c04:
             d.update(ond=self.ond, onr=self.onr, orst=self.orst, onr2=self.onr2)
         for n in range(1, self.f.nsites + 1):
-            d[f"p{n}"] = 1 if n in self.pulses else 0
+            d[f"p{n}"] = 1 if (n in self.pulses and not self.nopush) else 0
         d["pa"] = 1 if "a" in self.pulses else 0
         return d
 
